@@ -325,12 +325,73 @@ Definition net_in (net : network) (l : list network) : bool :=
 Definition find_network (name : string) : option network :=
   find (fun n => String.eqb (nw_name n) name) all_networks.
 
+(* ---------- encoding.to_bytes on a bytes argument ----------
+   def to_bytes(string, unhexlify=True):
+       if not string: return b''
+       try:    string = string.decode(); return bytes.fromhex(string)      # bytes that READ as hexadecimal text are decoded
+       except (TypeError, ValueError): pass
+       return string
+   bytes.fromhex skips ASCII whitespace in front of every pair of digits; a byte that is neither a hexadecimal digit nor ASCII
+   white space makes either the UTF-8 decoding or fromhex fail, and the argument comes back as it is. *)
+Definition hex_digit (b : byte) : option Z :=
+  let z := bz b in
+  if (48 <=? z) && (z <=? 57) then Some (z - 48)
+  else if (65 <=? z) && (z <=? 70) then Some (z - 55)
+  else if (97 <=? z) && (z <=? 102) then Some (z - 87)
+  else None.
+Definition hex_space (b : byte) : bool := let z := bz b in ((9 <=? z) && (z <=? 13)) || (z =? 32).
+
+Fixpoint lib_fromhex (l : bytes) : option bytes :=
+  match l with
+  | [] => Some []
+  | a :: r =>
+      if hex_space a then lib_fromhex r
+      else match hex_digit a, r with
+           | Some hi, b :: r' =>
+               match hex_digit b with
+               | Some lo => match lib_fromhex r' with Some t => Some (zb (16 * hi + lo) :: t) | None => None end
+               | None => None
+               end
+           | _, _ => None
+           end
+  end.
+
+Definition lib_to_bytes (x : bytes) : bytes :=
+  match x with
+  | [] => []
+  | _ => match lib_fromhex x with Some y => y | None => x end
+  end.
+
+(* the byte strings to_bytes does not leave alone *)
+Definition hexlike (x : bytes) : bool :=
+  match x with [] => false | _ => match lib_fromhex x with Some _ => true | None => false end end.
+
 (* ---------- the code as it is / as repaired ---------- *)
 Record fixes := { fx_witver : bool;      (* fixes/C05-1: witness version reaches the script *)
                   fx_netobj : bool;      (* fixes/C05-2: Address/HDKey object of another network refused *)
-                  fx_p2shobj : bool }.   (* fixes/C05-3: p2sh-segwit Address object locks to its P2SH script *)
-Definition fx_orig : fixes := {| fx_witver := false; fx_netobj := false; fx_p2shobj := false |}.
-Definition fx_all : fixes := {| fx_witver := true; fx_netobj := true; fx_p2shobj := true |}.
+                  fx_p2shobj : bool;     (* fixes/C05-3: p2sh-segwit Address object locks to its P2SH script *)
+                  fx_tb : bytes -> bytes (* what happens to a binary hash / script / key argument on its way in:
+                                            [lib_to_bytes] = the code as it is (known class ascii_hex_payload),
+                                            the identity = binary arguments are taken as they are *) }.
+Definition fx_orig : fixes :=
+  {| fx_witver := false; fx_netobj := false; fx_p2shobj := false; fx_tb := lib_to_bytes |}.
+Definition fx_all : fixes :=
+  {| fx_witver := true; fx_netobj := true; fx_p2shobj := true; fx_tb := fun x => x |}.
+(* the tree as it stands (the three repairs are in, to_bytes is as it was) *)
+Definition fx_now : fixes :=
+  {| fx_witver := true; fx_netobj := true; fx_p2shobj := true; fx_tb := lib_to_bytes |}.
+
+(* the same repairs, binary arguments taken as they are *)
+Definition fxi (fx : fixes) : fixes :=
+  {| fx_witver := fx_witver fx; fx_netobj := fx_netobj fx; fx_p2shobj := fx_p2shobj fx; fx_tb := fun x => x |}.
+
+(* "if not string: return b''" comes first, whatever the rest does *)
+Definition tb (fx : fixes) (x : bytes) : bytes := match x with [] => [] | _ => fx_tb fx x end.
+
+(* sha256(b''), the hash Address() computes when it is given neither data nor a hash *)
+Definition sha256_empty : bytes :=
+  [xe3; xb0; xc4; x42; x98; xfc; x1c; x14; x9a; xfb; xf4; xc8; x99; x6f; xb9; x24;
+   x27; xae; x41; xe4; x64; x9b; x93; x4c; xa4; x95; x99; x1b; x78; x52; xb8; x55].
 
 Inductive enc := EB58 | EBech.
 Definition enc_eqb (a b : enc) : bool := match a, b with EB58, EB58 | EBech, EBech => true | _, _ => false end.
@@ -385,14 +446,16 @@ Definition lib_deserialize (fx : fixes) (a : daddr) (encoding : option enc) (net
   end.
 
 (* ---------- encoding.pubkeyhash_to_addr (which content gets written) ---------- *)
-Definition lib_pkh_to_bech (hrp : bytes) (witver : Z) (h : bytes) : option daddr :=
+(* pubkeyhash_to_addr_bech32: "pubkeyhash = list(to_bytes(pubkeyhash))" first *)
+Definition lib_pkh_to_bech (fx : fixes) (hrp : bytes) (witver : Z) (h0 : bytes) : option daddr :=
+  let h := tb fx h0 in
   let n := blen h in
   let r :=
     if (n =? 20) || (n =? 32) || (n =? 40) then Some (witver, h)
     else match h with
          | b0 :: b1 :: rest =>
              if bz b1 =? blen rest then Some (if bz b0 =? 0 then witver else bz b0 - 80, rest) else None
-         | _ => None
+         | _ => None                                       (* IndexError *)
          end in
   match r with
   (* a header byte 0x30..0x4f gives a "version" -32..-1: Python indexes the code string from its end and a
@@ -402,6 +465,9 @@ Definition lib_pkh_to_bech (hrp : bytes) (witver : Z) (h : bytes) : option daddr
   | None => None
   end.
 
+(* pubkeyhash_to_addr_base58: "key = to_bytes(prefix) + to_bytes(pubkeyhash)" *)
+Definition lib_pkh_to_b58 (fx : fixes) (pfx h : bytes) : daddr := DB58 (tb fx pfx) (tb fx h).
+
 Section Lib.
 Variable H160 : bytes -> bytes.
 
@@ -409,13 +475,11 @@ Variable H160 : bytes -> bytes.
 Record addr_obj := { ao_stype : option string; ao_hash : bytes; ao_net : network; ao_enc : enc;
                      ao_wtype : string; ao_witver : Z; ao_addr : daddr }.
 
-(* Address(hashed_data=hashed, prefix=, script_type=, encoding=, witness_type=, witver=, network=) *)
-Definition lib_address_new (hashed : bytes) (prefix : option bytes) (st : option string)
-           (e : option enc) (wt : option string) (witver : Z) (net : network) : option addr_obj :=
-  match hashed with
-  | [] => None
-  | _ =>
-      let '(wt1, wv1) :=
+(* Address(data=, hashed_data=hashed, prefix=, script_type=, encoding=, witness_type=, witver=, network=).
+   [dh] = (hash160 (to_bytes data), sha256 (to_bytes data)): what the object hashes itself when to_bytes(hashed_data) is
+   empty ("if not self.hash_bytes:").  [hash_bytes] is to_bytes(hashed_data); pubkeyhash_to_addr applies to_bytes again. *)
+(* the witness type and witness version the object ends up with *)
+Definition addr_wt (st : option string) (e : option enc) (wt : option string) (witver : Z) : string * Z :=
         match wt with
         | Some w => (w, witver)
         | None =>
@@ -423,39 +487,61 @@ Definition lib_address_new (hashed : bytes) (prefix : option bytes) (st : option
             else if osin st [s_p2sh_p2wpkh; s_p2sh_p2wsh] then (s_p2sh_segwit, witver)
             else if oseq st s_p2tr then (s_taproot, if witver =? 0 then 1 else witver)
             else match e with Some EB58 => (s_legacy, witver) | _ => (s_segwit, witver) end
-        end in
+        end.
+
+Definition lib_address_core (fx : fixes) (hashed1 : bytes) (dh : bytes * bytes) (prefix : option bytes)
+           (st : option string) (e : option enc) (wt : option string) (witver : Z) (net : network) : option addr_obj :=
+      let '(wt1, wv1) := addr_wt st e wt witver in
       let e1 := match e with
                 | Some x => x
                 | None => if osin st [s_p2pkh; s_p2sh; s_multisig; s_p2pk] || String.eqb wt1 s_legacy
                              || String.eqb wt1 s_p2sh_segwit then EB58 else EBech
                 end in
+      let hb := match hashed1 with
+                | [] => if (enc_eqb e1 EBech && osin st [s_p2sh; s_p2sh_multisig; s_p2tr]) || osin st [s_p2wsh; s_p2sh_p2wsh]
+                        then snd dh else fst dh
+                | h => h
+                end in
       match e1 with
       | EB58 =>
           let st1 := match st with None => Some s_p2pkh | _ => st end in
           match (if String.eqb wt1 s_p2sh_segwit
-                 then match lib_varstr hashed with Some v => Some (H160 (x00 :: v)) | None => None end
-                 else Some hashed) with
+                 then match lib_varstr hb with Some v => Some (H160 (x00 :: v)) | None => None end
+                 else Some hb) with
           | None => None
           | Some h1 =>
               let pfx := match prefix with
-                         | Some p => p
+                         | Some p => tb fx p
                          | None => if osin st1 [s_p2sh; s_p2sh_p2wpkh; s_p2sh_p2wsh; s_p2sh_multisig]
                                       || String.eqb wt1 s_p2sh_segwit
                                    then nw_prefix_address_p2sh net else nw_prefix_address net
                          end in
               Some {| ao_stype := st1; ao_hash := h1; ao_net := net; ao_enc := EB58; ao_wtype := wt1;
-                      ao_witver := wv1; ao_addr := DB58 pfx h1 |}
+                      ao_witver := wv1; ao_addr := lib_pkh_to_b58 fx pfx h1 |}
           end
       | EBech =>
           let st1 := match st with None => Some s_p2wpkh | _ => st end in
           let pfx := match prefix with Some p => p | None => nw_prefix_bech32 net end in
-          match lib_pkh_to_bech pfx wv1 hashed with
+          match lib_pkh_to_bech fx pfx wv1 hb with
           | None => None
-          | Some a => Some {| ao_stype := st1; ao_hash := hashed; ao_net := net; ao_enc := EBech;
+          | Some a => Some {| ao_stype := st1; ao_hash := hb; ao_net := net; ao_enc := EBech;
                               ao_wtype := wt1; ao_witver := wv1; ao_addr := a |}
           end
-      end
-  end.
+      end.
+
+Definition lib_address_make (fx : fixes) (hashed : bytes) (dh : bytes * bytes) (prefix : option bytes)
+           (st : option string) (e : option enc) (wt : option string) (witver : Z) (net : network) : option addr_obj :=
+  lib_address_core fx (tb fx hashed) dh prefix st e wt witver net.
+
+(* Address(hashed_data=hashed, ...): no data, so an empty hash is replaced by the hash of the empty string *)
+Definition lib_address_new (fx : fixes) (hashed : bytes) (prefix : option bytes) (st : option string)
+           (e : option enc) (wt : option string) (witver : Z) (net : network) : option addr_obj :=
+  lib_address_make fx hashed (H160 [], sha256_empty) prefix st e wt witver net.
+
+(* Address(data=d, script_type=, encoding=, witver=, network=), given hash160(d) and sha256(d) *)
+Definition lib_address_of_data (fx : fixes) (h160 s256 : bytes) (st : option string) (e : option enc)
+           (witver : Z) (net : network) : option addr_obj :=
+  lib_address_make fx [] (h160, s256) None st e None witver net.
 
 (* Address.parse(address, network=) *)
 Definition lib_address_parse (fx : fixes) (a : daddr) (network : option string) : option addr_obj :=
@@ -469,7 +555,7 @@ Definition lib_address_parse (fx : fixes) (a : daddr) (network : option string) 
              end) with
       | None => None
       | Some net =>
-          lib_address_new (ds_hash dd)
+          lib_address_new fx (ds_hash dd)
             (Some (match a with DB58 v _ => v | DBech p _ _ => p end))
             (ds_stype dd) (Some (ds_enc dd)) (Some (ds_wtype dd))
             (if fx_witver fx then match ds_witver dd with Some w => w | None => 0 end else 0) net
@@ -492,12 +578,15 @@ Definition script_type_default (w : wtype) (multisig locking : bool) : string :=
 
 (* HDKey(pub, network=net, witness_type=w, multisig=ms).address_obj, given hash160(pub) and sha256(pub):
    Key.address -> Address(data=pub, network, script_type=hd.script_type, encoding=hd.encoding) *)
-Definition lib_hd_address_obj (net : network) (w : wtype) (ms : bool) (h160 s256 : bytes) : option addr_obj :=
+Definition lib_hd_address_obj (fx : fixes) (net : network) (w : wtype) (ms : bool) (h160 s256 : bytes)
+  : option addr_obj :=
   let st := script_type_default w ms false in
   let e := match w with WSegwit => EBech | _ => EB58 end in
-  let hashed := if (enc_eqb e EBech && sin st [s_p2sh; s_p2sh_multisig; s_p2tr]) || sin st [s_p2wsh; s_p2sh_p2wsh]
-                then s256 else h160 in
-  lib_address_new hashed None (Some st) (Some e) None 0 net.
+  lib_address_make fx [] (h160, s256) None (Some st) (Some e) None 0 net.
+
+(* Key(pub, network=net).address_obj: Key.address() with its defaults, Address(data=pub, encoding='base58') *)
+Definition lib_key_address_obj (fx : fixes) (net : network) (h160 s256 : bytes) : option addr_obj :=
+  lib_address_make fx [] (h160, s256) None None (Some EB58) None 0 net.
 
 (* ---------- Script.parse_bytes(lock_script, strict=True, is_locking=True) as far as Output uses it ---------- *)
 Inductive sres := SOk (items : list item) (types : list string) (hash : bytes) | SErr | SUnmodelled.
@@ -546,6 +635,9 @@ Record oargs := { a_addr : addr_arg; a_hash : bytes; a_pubkey : bytes; a_lock : 
 Inductive oaddr := OaGiven | OaIs (a : daddr) | OaErr | OaEmpty.
 Record out := { o_lock : bytes; o_stype : string; o_net : string; o_hash : bytes; o_witver : Z;
                 o_enc : enc; o_addr : oaddr }.
+Definition with_addr (o : out) (a : oaddr) : out :=
+  {| o_lock := o_lock o; o_stype := o_stype o; o_net := o_net o; o_hash := o_hash o; o_witver := o_witver o;
+     o_enc := o_enc o; o_addr := a |}.
 Inductive ores := ROk (o : out) | RErr | RUnmodelled.
 
 (* repaired code (fixes/C05-2): an Address/HDKey object made for another network is accepted only when its
@@ -557,8 +649,9 @@ Definition lib_obj_network_ok (fx : fixes) (o : addr_obj) (net : network) : bool
      | None => false
      end.
 
-(* everything after "self.script = Script.parse_bytes(self.lock_script, ...)", given its result [sr] *)
-Definition lib_output_k (fx : fixes) (a : oargs) (sr : sres) : ores :=
+(* everything in Output.__init__ after "self.script = Script.parse_bytes(self.lock_script, ...)", given its result
+   [sr]; the address is not computed here (Output.address is a property, below) *)
+Definition lib_output_core (fx : fixes) (a : oargs) (sr : sres) : ores :=
   let net := a_net a in
   let '(given, obj, pubkey, stype0) :=
     match a_addr a with
@@ -647,28 +740,45 @@ Definition lib_output_k (fx : fixes) (a : oargs) (sr : sres) : ores :=
          else Some (a_lock a)) with
   | None => RErr
   | Some lock =>
-      let addr :=
-        match a_addr a with
-        | AaStr _ => OaGiven
-        | AaObj o | AaHd o _ _ _ => OaIs (ao_addr o)
-        | AaNone =>
-            match h3 with
-            | [] => OaEmpty
-            | _ => match lib_address_new h3 None (Some st4) (Some e4) None wv3 net1 with
-                   | Some o => OaIs (ao_addr o)
-                   | None => OaErr
-                   end
-            end
-        end in
       ROk {| o_lock := lock; o_stype := st4; o_net := nw_name net1; o_hash := h3; o_witver := wv3;
-             o_enc := e4; o_addr := addr |}
+             o_enc := e4; o_addr := OaEmpty |}
   end end end end.
+
+(* Output.address / Output.address_obj: the address that was given, or
+   Address(hashed_data=self.public_hash, script_type=, witver=, encoding=, network=self.network); without an
+   Address/HDKey object self.network is the network the output was created for *)
+Definition lib_out_address (fx : fixes) (a : oargs) (o : out) : oaddr :=
+  match a_addr a with
+  | AaStr _ => OaGiven
+  | AaObj ob | AaHd ob _ _ _ => OaIs (ao_addr ob)
+  | AaNone =>
+      match o_hash o with
+      | [] => OaEmpty
+      | _ => match lib_address_new fx (o_hash o) None (Some (o_stype o)) (Some (o_enc o)) None (o_witver o) (a_net a) with
+             | Some ob => OaIs (ao_addr ob)
+             | None => OaErr
+             end
+      end
+  end.
+
+Definition lib_output_k (fx : fixes) (a : oargs) (sr : sres) : ores :=
+  match lib_output_core fx a sr with
+  | ROk o => ROk (with_addr o (lib_out_address fx a o))
+  | r => r
+  end.
+
+(* "self.lock_script = to_bytes(lock_script); self.public_hash = to_bytes(public_hash); self.public_key = to_bytes(public_key)" *)
+Definition lib_args_in (fx : fixes) (a : oargs) : oargs :=
+  {| a_addr := match a_addr a with AaHd o pub w ms => AaHd o (tb fx pub) w ms | x => x end;
+     a_hash := tb fx (a_hash a); a_pubkey := tb fx (a_pubkey a); a_lock := tb fx (a_lock a);
+     a_stype := a_stype a; a_witver := a_witver a; a_enc := a_enc a; a_net := a_net a |}.
 
 Definition lib_output (fx : fixes) (a : oargs) : ores :=
   match a_addr a, a_hash a, (match a_addr a with AaHd _ pub _ _ => pub | _ => a_pubkey a end), a_lock a with
   | AaNone, [], [], [] => RErr
   | _, _, _, _ =>
-      lib_output_k fx a (match a_lock a with [] => SOk [] [] [] | l => lib_script_parse l end)
+      let a' := lib_args_in fx a in
+      lib_output_k fx a' (match a_lock a' with [] => SOk [] [] [] | l => lib_script_parse l end)
   end.
 
 (* ---------- classes on which the unrepaired code fails (guards of the theorems when a repair is absent) ---------- *)
@@ -679,6 +789,14 @@ Definition cls_witver_str (d : dest) : bool :=
 Definition cls_witver_obj (d : dest) : bool := stype_eqb (d_stype d) P2tr && negb (d_witver d =? 1).
 (* Address.parse: every bech32m address *)
 Definition cls_witver_parse (d : dest) : bool := stype_eqb (d_stype d) P2tr.
+
+(* a payload that reads as hexadecimal text (known class ascii_hex_payload: to_bytes decodes it a second time) *)
+Definition cls_ascii_hex (d : dest) : bool := hexlike (d_payload d).
+
+(* the guard of the theorems: binary arguments are taken as they are (repaired code), or the code is as it is and the
+   payload does not read as hexadecimal text *)
+Definition hex_guard (fx : fixes) (d : dest) : Prop :=
+  (forall x, fx_tb fx x = x) \/ (fx_tb fx = lib_to_bytes /\ cls_ascii_hex d = false).
 
 (* ---------- named creation paths (what the theorems and the driver use) ---------- *)
 Definition args0 (net : network) : oargs :=
@@ -703,6 +821,29 @@ Definition lib_out_hash fx net (h : bytes) (st : option string) (wv : Z) (e : op
 Definition lib_out_script fx net (s : bytes) : ores :=
   lib_output fx {| a_addr := AaNone; a_hash := []; a_pubkey := []; a_lock := s; a_stype := None;
                    a_witver := 0; a_enc := None; a_net := net |}.
+
+(* Key(pub, network=A).address_obj handed to an output of network [net] *)
+Definition lib_out_key fx net (o : addr_obj) : ores := lib_out_addr_obj fx net o.
+
+(* Transaction.parse(raw, network=net).outputs[i]: Output.parse reads value and script from the wire (property C01's
+   codec) and calls Output(value, lock_script=script, network=net) *)
+Definition lib_out_tx fx net (s : bytes) : ores := lib_out_script fx net s.
+
+(* an output that went through Transaction.raw() and Transaction.parse(): only its locking script travels *)
+Definition lib_reparse fx net (r : ores) : ores :=
+  match r with ROk o => lib_out_tx fx net (o_lock o) | x => x end.
+
+(* ---------- HD keys: which destination an HDKey object stands for (BIP44/49/84 single signature keys,
+              BIP45/48 multisig cosigner keys) ---------- *)
+Definition spec_hd_dest (w : wtype) (ms : bool) (h160 s256 : bytes) : dest :=
+  match w, ms with
+  | WLegacy, false => mkdest P2pkh 0 h160
+  | WLegacy, true => mkdest P2sh 0 h160                 (* the library's convention for a lone legacy multisig key *)
+  | WSegwit, false => mkdest P2wpkh 0 h160
+  | WSegwit, true => mkdest P2wsh 0 s256
+  | WP2shSegwit, false => mkdest P2sh 0 (H160 (x00 :: x14 :: h160))
+  | WP2shSegwit, true => mkdest P2sh 0 (H160 (x00 :: x20 :: s256))
+  end.
 
 (* the two directions of the property, as functions *)
 Definition lib_output_script fx net (a : daddr) : option bytes :=
